@@ -215,6 +215,15 @@ def _run_in_fork(mod, case, allowance):
     return out
 
 
+def run_isolated(mod, case, allowance=30):
+    """run_guarded in a forked child of this process."""
+    if _IN_FORK[0]:
+        return run_guarded(mod, case, allowance)
+    from .loader import load_petl
+    load_petl()
+    return _run_in_fork(mod, case, allowance)
+
+
 def run_guarded(mod, case, allowance=30):
     """Run one case; harness exceptions are kept apart from violations."""
     if case.get('forked') and not _IN_FORK[0]:
@@ -424,7 +433,10 @@ def minimise(mod, case, ref, budget_s=20.0):
             if time.time() - t0 > budget_s:
                 break
             try:
-                out = run_guarded(mod, cand, allowance=10)
+                # (each candidate in a child of this process: what one
+                # evaluation leaves behind in the code under test - module
+                # level state - cannot influence the next)
+                out = run_isolated(mod, cand, allowance=10)
             except Exception:
                 continue
             if same_violation(out, ref):
